@@ -208,12 +208,12 @@ Definition shrink_view (v : view) : view :=
   mkView (fun coords => vw_fn v (fill_coords (vw_dims v) coords)) (filter kept (vw_dims v)) (vw_rg v).
 
 Definition pmem (k : positive) (l : list pn) : bool := existsb (fun kn => Pos.eqb (fst kn) k) l.
-Fixpoint index_of_var (k : positive) (l : list pn) : nat :=
-  match l with [] => 0 | kn :: l => if Pos.eqb (fst kn) k then 0 else S (index_of_var k l) end.
-
-Fixpoint insert_sorted (x : nat) (l : list nat) : list nat :=
-  match l with [] => [x] | y :: l' => if x <=? y then x :: l else y :: insert_sorted x l' end.
-Definition sort_nat (l : list nat) : list nat := fold_right insert_sorted [] l.
+(** positions of [false] in a mask, ascending, starting at [off] *)
+Fixpoint false_positions (m : list bool) (off : nat) : list nat :=
+  match m with
+  | [] => []
+  | b :: m' => (if b then [] else [off]) ++ false_positions m' (S off)
+  end.
 
 Record reduced : Type := mkRed {
   rd_views : list view; rd_out : list pn; rd_unsq : list nat; rd_shape : list nat }.
@@ -221,7 +221,9 @@ Record reduced : Type := mkRed {
 (** step 2: [len(output_variables) != num_variables] -> unchanged.  Step 3's early return compares a
     tuple (the result of a starred zip) with a list and is therefore never taken; the remaining steps are
     harmless when nothing shrinks.  The variables of the reduced equation are re-lettered in the
-    iteration order of a Python set: names only. *)
+    iteration order of a Python set: names only.  [removed_vars] is a Python set as well;
+    [sorted(output_variables.index(v) for v in removed_vars)] is, whatever its iteration order, the
+    ascending list of the positions of the removed variables in the output. *)
 Definition reduce_equation_model (views : list view) (out : list pn) : reduced :=
   let output_shape := map snd out in
   let allvars := dedup [] (flat_map vw_vars views) in
@@ -232,7 +234,7 @@ Definition reduce_equation_model (views : list view) (out : list pn) : reduced :
     let removed := filter (fun kn => negb (pmem (fst kn) shrunk_vars)) allvars in
     mkRed shrunk
           (filter (fun kn => negb (pmem (fst kn) removed)) out)
-          (sort_nat (map (fun kn => index_of_var (fst kn) out) removed))
+          (false_positions (map (fun kn => negb (pmem (fst kn) removed)) out) 0)
           output_shape.
 
 (** [for v in unsqueeze_index: result = result.unsqueeze(v)] then [expand(output_shape)]: the
